@@ -26,6 +26,14 @@ def alpha_index_of(t):
             return None
         if table == {'A': 0, 'C': 1, 'G': 2, 'T': 3}:
             return t[2]
+    # X[[ALPHA[i] for i in X].index(sym)]: the element i of X with ALPHA[i] == sym, i.e. ALPHA.index(sym) whenever it is defined
+    if t[0] == 'sub' and t[2][0] == 'call' and t[2][1][0] == 'attr' and t[2][1][2] == 'index' and len(t[2][2]) == 1:
+        X, Y = t[1], t[2][1][1]
+        while is_call(Y, 'builtins.tuple', 'builtins.list') and len(Y[2]) == 1:
+            Y = Y[2][0]
+        if Y[0] == 'comp' and Y[1] == 'list' and len(Y[3]) == 1 and not Y[3][0][1] and Y[3][0][0] == X and \
+                Y[2][0] == 'sub' and is_alpha(Y[2][1]) and Y[2][2][0] == 'iter' and Y[2][2][1] == X:
+            return t[2][2][0]
     return None
 
 
@@ -917,6 +925,15 @@ def classify_inv(ctx, f, t, state, acc):
     if t[0] == 'sub' and t[1][0] == 'sub' and t[1][1][0] == 'v' and t[1][1][1] == 'shuffles':
         return ('dev', 'the decoder takes the table entry %s itself as the digit: that is the rank among all four columns, '
                        'not among the live arcs (equal only at out-degree 4)' % show(t)[:80])
+    # argsort(P)[r]: the argsort of a permutation is its inverse (P = argsort(table entries of the live arcs))
+    if t[0] == 'sub' and is_call(t[1], 'numpy.argsort') and len(t[1][2]) == 1 and not t[1][3]:
+        p = classify_perm(ctx, f, t[1][2][0], state, acc)
+        if p is not None:
+            if p[0] == 'dev':
+                return p
+            inner = classify_inv(ctx, f, t[2], state, acc)
+            if inner is not None and inner[0] == 'rank':
+                return ('perm-inverse', inner[1])
     # P[r]  (applying the permutation instead of inverting it)
     if t[0] == 'sub':
         p = classify_perm(ctx, f, t[1], state, acc)
@@ -1221,8 +1238,8 @@ def r_endian(ctx):
                 # component i of the element iterated
                 x = t
                 want_items = []
-                while x[0] == 'item':
-                    want_items.append(x[2])
+                while x[0] == 'item' or (x[0] == 'sub' and x[2][0] == 'c' and isinstance(x[2][1], int)):
+                    want_items.append(x[2] if x[0] == 'item' else x[2][1])
                     x = x[1]
                 return x[0] == 'iter' and want_items and want_items[0] == i or \
                     (x[0] == 'iter' and want_items[-1:] == [i])
